@@ -75,6 +75,8 @@ def check(case, ctx):
 
     n, m, kind = case["n"], case["m"], case["kind"]
     x = make(kind, n, case["seed"])
+    if case.get("baseline"):
+        x = (x + np.float32(case["baseline"])).astype(np.float32)  # the series sits on a DC level
     x64 = x.astype(np.float64)
     nx = float(np.linalg.norm(x64)) + 1e-300
     from vlib.strategies import relayout
@@ -105,7 +107,9 @@ def check(case, ctx):
     xp[:n] = x64
     ref = np.fft.rfft(xp)
     lg = 1 + np.log2(L)
-    tol = 16 * EPS32 * (lg * nx + np.abs(ref))
+    # (the constant was calibrated on zero-mean data; a series dominated by its DC level concentrates the single-precision
+    #  twiddle error in a few bins - observed 1.003x the bound at n = 2^22 - so such cases get four times the allowance)
+    tol = (64 if case.get("baseline") else 16) * EPS32 * (lg * nx + np.abs(ref))
     err = np.abs(fs.data.astype(np.complex128) - ref)
     if np.any(err > tol):
         k = int(np.argmax(err / tol))
@@ -137,6 +141,9 @@ def check(case, ctx):
         raise Violation("form_spec:values", f"{ctxt}")
     # convolution / correlation
     y = make("normal", m, case["seed"] + 1)
+    if case.get("box_kernel"):
+        y = np.full(m, np.float32(1.0 + (case["seed"] % 3)))  # a boxcar: the commonest smoothing kernel
+
     y64 = y.astype(np.float64)
     ny = float(np.linalg.norm(y64)) + 1e-300
     cv = call("fftconvolve", lambda: kernels.fftconvolve(x, y))
@@ -215,6 +222,7 @@ def enum_long(tier):
     for i, n in enumerate(ns):
         for j, kind in enumerate(("normal", "dyn")):
             yield {"n": n, "m": [1, 7, 64][(i + j) % 3], "kind": kind, "seed": 5000 + 2 * i + j, "backend": "numpy" if (i + j) % 4 == 0 else "default"}
+        yield {"n": n, "m": [64, 16, 1000][i % 3], "kind": "normal", "seed": 6000 + i, "backend": "default", "box_kernel": True, "baseline": [100.0, -37.0][i % 2]}
 
 
 def strat_random(tier):
@@ -225,7 +233,8 @@ def strat_random(tier):
         n = draw(st.one_of(st.integers(1, 300), st.integers(1, nmax)))
         m = draw(st.one_of(st.integers(1, n), st.integers(1, min(n, 16)), st.just(n)))
         return {"n": n, "m": m, "kind": draw(st.sampled_from(KINDS)), "seed": draw(st.integers(0, 2**31 - 1)),
-                "backend": draw(st.sampled_from(["default", "default", "numpy"]))}
+                "backend": draw(st.sampled_from(["default", "default", "numpy"])),
+                "box_kernel": draw(st.sampled_from([False, False, True])), "baseline": draw(st.sampled_from([0.0, 0.0, 100.0, -37.0]))}
 
     return s()
 
